@@ -486,3 +486,88 @@ fn import_case(n0: (u8, u8), n1: (u8, u8), with_single: bool) {
 #[kani::proof] #[kani::unwind(5)] fn c14_import_case_illegal_action() { import_case((0, 5), (0, 0), false); }
 /// a wrong action for the single infoset
 #[kani::proof] #[kani::unwind(5)] fn c14_import_case_illegal_single_action() { import_case((0, 0), (7, 0), true); }
+
+// ---------------------------------------------------------------------------------------------
+// C01  get_info on one concrete perfect-recall tree (bounded stand-in for the bottom-up loop of
+// optimal_deviations, which is not under a Verus contract)
+// ---------------------------------------------------------------------------------------------
+
+fn pinfo(id: u8, n: usize, prev: Option<usize>) -> PlayerInfosetData<u8, u8> {
+    let mut acts = Vec::new();
+    let mut a = 0;
+    while a < n { acts.push(a as u8); a += 1; }
+    PlayerInfosetData { infoset: id, actions: acts.into_boxed_slice(), prev_infoset: prev }
+}
+
+/// P1 at x: safe -> 0 | risk -> P2 at z: L -> 3 | R -> P1 at y: c -> 5 | d -> 2.   (y follows x)
+fn recall_game() -> Game<u8, u8> {
+    let y = Node::Player(Player { num: PlayerNum::One, infoset: 1, actions: Box::new([Node::Terminal(5.0), Node::Terminal(2.0)]) });
+    let z = Node::Player(Player { num: PlayerNum::Two, infoset: 0, actions: Box::new([Node::Terminal(3.0), y]) });
+    let x = Node::Player(Player { num: PlayerNum::One, infoset: 0, actions: Box::new([Node::Terminal(0.0), z]) });
+    Game {
+        chance_infosets: Box::new([]),
+        player_infosets: [Box::new([pinfo(0, 2, None), pinfo(1, 2, Some(0))]), Box::new([pinfo(0, 2, None)])],
+        single_infosets: [Box::new([]), Box::new([])],
+        root: x,
+    }
+}
+
+/// one of (1,0), (1/2,1/2), (0,1): all arithmetic on these is exact
+fn any_dyadic_pair() -> (f64, f64) {
+    let k: u8 = kani::any();
+    kani::assume(k < 3);
+    if k == 0 { (1.0, 0.0) } else if k == 1 { (0.5, 0.5) } else { (0.0, 1.0) }
+}
+
+fn fmax(a: f64, b: f64) -> f64 { if a > b { a } else { b } }
+
+/// C01.K.get_info.recall_tree (bounded: this tree; every profile with probabilities in {0,1/2,1},
+/// including the pure profiles that make infoset y unreachable): utility and both regrets equal the
+/// brute-force values over pure deviations.
+#[kani::proof]
+#[kani::unwind(8)]
+fn c01_get_info_recall_tree() {
+    let g = recall_game();
+    let (x0, x1) = any_dyadic_pair();
+    let (y0, y1) = any_dyadic_pair();
+    let (z0, z1) = any_dyadic_pair();
+    let s = Strategies { game: &g, probs: [Box::new([x0, x1, y0, y1]), Box::new([z0, z1])] };
+    let info = s.get_info();
+    // reference, written from the definition
+    let vy = y0 * 5.0 + y1 * 2.0;
+    let vz = z0 * 3.0 + z1 * vy;
+    let util = x0 * 0.0 + x1 * vz;
+    // player one deviations: best of safe, risk with the better of c / d
+    let br_y = 5.0;
+    let br_one = fmax(0.0, z0 * 3.0 + z1 * br_y);
+    // player two deviations (minimises player one's payoff): L or R after risk
+    let br_two = -(x1 * if 3.0 < vy { 3.0 } else { vy });
+    assert!(info.player_utility(PlayerNum::One) == util, "C01.K.get_info.recall_tree: utility is the expected payoff");
+    assert!(info.player_regret(PlayerNum::One) == fmax(br_one - util, 0.0), "C01.K.get_info.recall_tree: player one's regret is the best unilateral gain");
+    assert!(info.player_regret(PlayerNum::Two) == fmax(br_two + util, 0.0), "C01.K.get_info.recall_tree: player two's regret is the best unilateral gain");
+    kani::cover!(z1 == 0.0 && x1 == 0.0, "profile that makes the later infoset unreachable");
+}
+
+/// C01.K.expected.chance_tree (bounded: ONE concrete 6-node tree -- a chance node below a mixed
+/// action of player one and a second chance node below it; the strategy entry and the chance
+/// probabilities range over {0, 1/2, 1} / {1/4, 1/2, 3/4}; all arithmetic exact): the reported utility
+/// is the reach-weighted sum of the terminal payoffs.
+#[kani::proof]
+#[kani::unwind(8)]
+fn c01_expected_chance_tree() {
+    // x: P1 {a0 -> chance c0 {T(1) | chance c1 {T(3) | T(5)}}, a1 -> T(0)}
+    let c1 = Node::Chance(Chance { outcomes: Box::new([Node::Terminal(3.0), Node::Terminal(5.0)]), infoset: 1 });
+    let c0 = Node::Chance(Chance { outcomes: Box::new([Node::Terminal(1.0), c1]), infoset: 0 });
+    let x = Node::Player(Player { num: PlayerNum::One, infoset: 0, actions: Box::new([c0, Node::Terminal(0.0)]) });
+    let k: u8 = kani::any();
+    kani::assume(k < 3);
+    let q = 0.25 * (k as f64 + 1.0); // 1/4, 1/2, 3/4
+    let (s0, s1) = any_dyadic_pair();
+    let chance = [ChanceInfosetData { probs: Box::new([q, 1.0 - q]) }, ChanceInfosetData { probs: Box::new([0.5, 0.5]) }];
+    let one: [[f64; 2]; 1] = [[s0, s1]];
+    let two: [[f64; 2]; 0] = [];
+    let u = regret::expected(&x, &chance, [&one[..], &two[..]]);
+    let want = s0 * (q * 1.0 + (1.0 - q) * (0.5 * 3.0 + 0.5 * 5.0)) + s1 * 0.0;
+    assert!(u == want, "C01.K.expected.chance_tree: utility is the reach-weighted sum over terminals (nested chance below a mixed action)");
+    kani::cover!(s0 == 0.5 && k == 0, "mixed action above an uneven chance node reachable");
+}
